@@ -651,7 +651,10 @@ impl<'p, 's, M: Matcher, W: WriteColor> Sink for SummarySink<'p, 's, M, W> {
         searcher: &Searcher,
         mat: &SinkMatch<'_>,
     ) -> Result<bool, io::Error> {
-        let is_multi_line = self.multi_line(searcher);
+        // When inverting, every call reports lines that do not contain a
+        // match, so there are no matches to count in them: count the calls.
+        let is_multi_line =
+            self.multi_line(searcher) && !searcher.invert_match();
         let sink_match_count = if self.stats.is_none() && !is_multi_line {
             1
         } else {
